@@ -151,6 +151,11 @@ class HeapLV(LV):
         for k, s in self.keys(ex):
             terms.append(z3.Select(ex.heap_arr(st, k, s), self.oid))
         v, _ = unflatten(self.typ, terms)
+        if not ex.spec:
+            try:
+                ex.type_facts(st, v, self.typ, param=False)
+            except Unsupported:
+                pass
         return v
 
     def set(self, ex, st, v):
@@ -279,8 +284,11 @@ class Executor:
             self.assume(st, z3.And(*[f for f in fs if not z3.is_true(f)]))
         elif k == "ptr" and param:
             self.assume(st, z3.ULT(v.oid, rid(FRESH_BASE)))
-        elif k == "iface" and param:
-            self.assume(st, z3.And(z3.ULT(v.oid, rid(FRESH_BASE)), z3.Implies(v.tag == rid(0), v.oid == rid(0))))
+        elif k == "iface":
+            if param:
+                self.assume(st, z3.And(z3.ULT(v.oid, rid(FRESH_BASE)), z3.Implies(v.tag == rid(0), v.oid == rid(0))))
+            else:
+                self.assume(st, z3.Implies(v.tag == rid(0), v.oid == rid(0)))
         elif k == "struct":
             for name, ft, _ in t.fields():
                 try:
@@ -365,6 +373,8 @@ class Executor:
         """[(key, sort, array term)] of the region backing slice sl, one per element leaf."""
         out = []
         ls = leaves(sl.elem)
+        if sl.snap is not None:
+            st = sl.snap
         if sl.lv is not None:
             a = sl.lv.get(self, st)
             if a.term is None:
